@@ -122,6 +122,23 @@ def run(tier, seed):
             # stability: the float32-narrowed rate re-derives the same geometry (what a reloaded filter does)
             if BloomFilter._get_optimized_params(n, p32) != (fpr, k, m) or BloomFilter._get_optimized_params(n, p) != (fpr, k, m):
                 fail("bloom_geometry_stable", n=n, p=p)
+    # reload stability through the real loaders: the geometry re-derived from an exported footer is the original one
+    # (rates with many significant digits, element counts large enough for one ulp of the rate to move the bit count)
+    import struct as _struct
+    for n in (1, 7, 100, 8000, 50000) if tier == "quick" else (1, 7, 100, 999, 8000, 50000, 200000):
+        for p in [1.23456789e-4, 2.5e-7 / 3, 0.0123456789, 1 / 3, 0.05] + [10 ** -rnd.uniform(0.5, 7) for _ in range(4 if tier == "quick" else 20)]:
+            cases += 1
+            try:
+                fpr, k, m = BloomFilter._get_optimized_params(n, p)
+            except InitializationError:
+                continue
+            footer = _struct.pack("QQf", n, 0, fpr)
+            got = BloomFilter._parse_footer(BloomFilter._FOOTER_STRUCT, footer)
+            if (got[2], got[3], got[4]) != (fpr, k, m):
+                fail("reloaded_footer_gives_the_same_geometry", n=n, p=p, original=[fpr, k, m], reloaded=list(got[2:]))
+            got = BloomFilter._parse_footer(BloomFilter._FOOTER_STRUCT_BE, _struct.pack(">QQf", n, 0, fpr))
+            if (got[2], got[3], got[4]) != (fpr, k, m):
+                fail("reloaded_hex_footer_gives_the_same_geometry", n=n, p=p, original=[fpr, k, m], reloaded=list(got[2:]))
     # count-min: confidence / error rate
     confs = [c for c in rs if c < 1][:: (6 if tier == "quick" else 2)]
     errs = sorted(set(rs[:: (5 if tier == "quick" else 2)]) | {2.0 / w for w in range(2, 200)} |
